@@ -253,6 +253,18 @@ class Typed:
         CACHE.mkdir(parents=True, exist_ok=True)
         dig = repo.digest()
         f = CACHE / ("typed-%s.json" % dig[:32])
+        data = None
+        for attempt in (0, 1):
+            data = self._load_or_extract(repo, f, dig)
+            if data is not None:
+                break
+        if data is None:
+            raise AnalysisError("typed facts could not be loaded (cache entry vanished twice)")
+        self.mods: dict[str, dict] = data["modules"]
+        self.classes: dict[str, dict] = data["classes"]
+        self.stats = data["stats"]
+
+    def _load_or_extract(self, repo: Repo, f: Path, dig: str):
         self.cached = f.exists()
         if not self.cached:
             t0 = time.time()
@@ -269,8 +281,15 @@ class Typed:
             os.replace(tmp, f)
             self.extract_s = time.time() - t0
             # keep the cache small: drop older entries
-            olds = sorted(CACHE.glob("typed-*.json"), key=lambda p: p.stat().st_mtime)
-            for p in olds[:-16]:
+            # (other check processes run concurrently: every file operation here may meet a vanished entry)
+            def _mtime(p: Path) -> float:
+                try:
+                    return p.stat().st_mtime
+                except OSError:
+                    return 0.0
+
+            olds = sorted(CACHE.glob("typed-*.json"), key=_mtime)
+            for p in olds[:-40]:
                 try:
                     p.unlink()
                 except OSError:
@@ -279,10 +298,11 @@ class Typed:
             os.utime(f)
         except OSError:
             pass
-        data = json.load(open(f))
-        self.mods: dict[str, dict] = data["modules"]
-        self.classes: dict[str, dict] = data["classes"]
-        self.stats = data["stats"]
+        try:
+            with open(f) as fh:
+                return json.load(fh)
+        except (FileNotFoundError, json.JSONDecodeError):
+            return None  # evicted by a concurrent run between the existence test and the read: extract again
 
     @staticmethod
     def _key(node: ast.AST) -> Optional[str]:
